@@ -4,5 +4,5 @@ CONSTANTS
   MaxLen = 2
 INIT Init
 NEXT Next
-INVARIANTS AddOK SubOK NegOK NotOK CmpOK ExtOK LogicOK ShiftOK MulOK DivOK ParityOK
+INVARIANTS G_AddOK G_SubOK G_NegOK G_NotOK G_CmpOK G_ExtOK G_LogicOK G_ShiftOK G_MulOK G_DivOK G_DivRelOK G_SDivRelOK G_ParityOK
 CHECK_DEADLOCK FALSE
